@@ -75,6 +75,22 @@ PROPS = {
         "assumptions": ["IP listener only in this check (the SCION listener shares ValidateRequest and handleRequest; its addressing clause is C13's)",
                         "a datagram is given 5 ms of virtual time to be answered; replies are attributed through the simulator's causality tracking (which datagram the answering socket had read last)"],
     },
+    "C10": {
+        "level": "fault_enumeration",
+        "budget": {"quick": 80, "thorough": 900},
+        "runs": {"quick": 160, "thorough": 60000},
+        "rule": "one run = one NTS session between the real IPClient and the real listeners (real NTS-KE over simulated TLS) in which 128 tampered copies of packets captured in flight are delivered: "
+                "the first 32 runs of a batch enumerate every single-bit flip of the 252-byte request (delivered to the listeners) and of the 252-byte response (delivered to the client's socket ahead of the genuine one); "
+                "later runs sample bit flips, every 16-bit length word set to 0,1,3,4,-4,+4,0xffff,15,16,17, the client's own request reflected as a response, a genuine response to an earlier request replayed, and unmodified replays; "
+                "non-trivial = at least two tampered packets judged; distinct = distinct event-log hash",
+        "exhaustive_part": "single-bit flips of one request and one response at pool level 8: 4032 cases, enumerated completely when the batch has at least 32 runs (quick tier: 160 runs)",
+        "required_probes": ["genuine-accepted", "request-tamper-rejected", "response-tamper-rejected", "genuine-accepted-after-tampered", "unauthenticated-position"],
+        "components": {"real": ["net/nts DecodePacket, ProcessRequest, ProcessResponse, authenticate", "net/ntske cookies (Decode, Decrypt), Provider", "core/server runIPServer", "core/client IPClient", "NTS-KE over real TLS"],
+                       "stub": dict(STUBS_COMMON, **{"kernel UDP/TCP": "simnet", "attacker": "scripted re-delivery of captured packets"})},
+        "assumptions": ["a change is 'accepted' by a listener iff it answers, by the client iff the tampered datagram is the one it had read last when it reported an offset",
+                        "the two bytes of the authenticator field's own extension length are not authenticated and not interpreted: the statement is silent there (either outcome)",
+                        "different-session keys are exercised by C20/C11 (cookie keys), not here"],
+    },
     "C11": {
         "level": "exploration",
         "budget": {"quick": 80, "thorough": 900},
@@ -184,7 +200,7 @@ NOT_APPLICABLE = {
 
 # Properties that the design claims but whose world is not built yet (kept current).
 NOT_YET = {p: "designed (DESIGN.md section 3) but the simulated world is not built yet; not claimed until its check runs"
-           for p in ["C05", "C08", "C10", "C13", "C14", "C15"]}
+           for p in ["C05", "C08", "C13", "C14", "C15"]}
 
 PROPS["C01"].update(
     level_text="seeded exploration of multi-round histories of the real synchronization loop with scripted sources (values over the whole int64 range, failures, late answers, sources that never answer) and admissible/inadmissible configurations; per-round invariants: exactly one correction, magnitude bounds from the statement, exact value when every source answered in time, correction no later than the round's timeout; start-up refusal of inadmissible settings. Evidence, not proof.",
@@ -218,6 +234,10 @@ PROPS["C20"].update(
     level_text="seeded exploration of key-exchange histories between the real NTS-KE client and a real or scripted TLS peer on a simulated TCP transport: success only for offers the statement allows, success for every well-formed offer, keys equal to the peer's RFC 8915 exporter values (or, for the real server, to the keys sealed in its cookies), pool equal to the issued cookies in order, destination of the following request, and nothing left behind by a failed exchange. Evidence, not proof.",
     level_note="TLS transport only (QUIC not simulated); crypto/rand pinned per run; scripted peer encodes records with its own encoder",
     technique="deterministic simulation with fault injection: scripted TLS peer, stream segmentation and cuts, history oracle over attempts")
+PROPS["C10"].update(
+    level_text="fault enumeration: every single-bit corruption of a genuine NTS request and response is delivered in flight to the real listener / client and must be rejected (apart from the two unauthenticated length bytes), genuine packets must be accepted; sampled length-word mutations, reflection and replay on top. Exhaustive for the stated sub-space of one session; evidence otherwise.",
+    level_note="one session's keys per run (seeded); judged through replies and through which datagram the client consumed last",
+    technique="deterministic simulation with enumerated in-flight corruption faults")
 PROPS["C11"].update(
     level_text="seeded exploration of exchange histories with loss bursts, idle days (key rotation/retirement) and re-keying between the real NTS client, key-exchange server and NTP listeners; a wire monitor decides cookie single use, cookie/placeholder typing and count, request and reply size, reply authenticity, freshness and validity of issued cookies; pool accounting after every attempt. Evidence, not proof.",
     level_note="IP transport; the monitor's field walker and AEAD check are independent of the repository's decoder; server restart is not injected in this tier",
